@@ -209,7 +209,7 @@ Definition g2_required_breaks_of (d : doc) : bool :=
   existsb (fun v => nonempty (v_ids v) && existsb g2_shift (v_shifts v)) (d_vehicles d).
 
 Definition known_table : list (Z * (doc -> bool)) :=
-  [(6, k6_capacity_empty); (7, k7_over8); (8, k8_empty_demand_vectors); (9, k9_no_vehicles); (22, g2_required_breaks_of)].
+  [(7, k7_over8); (9, k9_no_vehicles); (22, g2_required_breaks_of)].   (* K6, K8: repaired in /repo, kept above for the regression theorems *)
 Definition known (d : doc) : bool := existsb (fun kf => snd kf d) known_table.
 
 (* ---------- entry points for the correspondence ---------- *)
